@@ -33,6 +33,8 @@ def _check_structural_constraint(must_link, cannot_link):
             samples_to_explore.remove(node)
 
         for i, j in itertools.combinations(reacheable_nodes, r=2):
+            # The nodes of the graph are positions in unique_indices: translate them back to sample indices
+            i, j = unique_indices[i], unique_indices[j]
 
             for pair in cannot_link:
                 pair_i, pair_j = pair
